@@ -259,6 +259,67 @@ def panic_sites(files=None):
                 out.append("%s::%s: %s" % (path.split("/")[0] + "/" + path.split("/")[-1], fn, re.sub(r"\s+", " ", t)[:140]))
     return "\n".join(out) + "\n"
 
+def layout_offsets(lay, reader_bits):
+    """bit offset and width of every field of the *plain* deku structs (fields with an explicit width, enum-typed fields, nested plain
+    structs, byte arrays, pads, and the custom readers whose width the function translator extracted), relative to the start of the struct;
+    a struct with a field this cannot size (ctx / cond / count / an unknown reader) is left out. -> {struct: [(field, offset, width)]}"""
+    items = []; cur = None
+    for line in lay.split("\n"):
+        if not line.strip(): continue
+        if not line.startswith("    "):
+            m = re.match(r"\S+ (struct|enum) (\w+) \[(.*)\]$", line)
+            cur = {"kind": m.group(1), "name": m.group(2), "top": m.group(3), "members": []}; items.append(cur)
+        else:
+            decl, _, attrs = (line.strip() + " ").partition(" | ")
+            cur["members"].append((decl.strip(), attrs.strip()))
+    by = {i["name"]: i for i in items}
+    def attr(a, key):
+        m = re.search(r'(?:^|[ ,])%s="?([0-9]+)"?' % key, a)
+        return int(m.group(1)) if m else None
+    memo = {}
+    def enum_bits(name):
+        it = by.get(name)
+        if not it or it["kind"] != "enum": return None
+        # an enum all of whose variants are unit variants is as wide as its id
+        if any("(" in d or "{" in d for d, _ in it["members"]): return None
+        return attr(it["top"], "bits")
+    def struct_fields(name):
+        if name in memo: return memo[name]
+        memo[name] = None
+        it = by.get(name)
+        if not it or it["kind"] != "struct": return None
+        off = 0; out = []
+        for decl, a in it["members"]:
+            if any(k in a for k in ("ctx=", "cond=", "count=", "skip", "until=")): return None
+            m = re.match(r"(?:pub(?:\([^)]*\))? )?(?:(\w+): )?(.+)$", decl)
+            fname, ty = (m.group(1) or "0"), m.group(2).strip()
+            off += (attr(a, "pad_bits_before") or 0) + 8 * (attr(a, "pad_bytes_before") or 0)
+            w = attr(a, "bits")
+            if w is None and "reader=" in a: w = reader_bits.get(name + "." + fname)
+            if w is None:
+                arr = re.match(r"\[u8; (\d+)\]$", ty)
+                if arr: w = 8 * int(arr.group(1))
+                elif ty in ("u8", "i8", "bool"): w = 8
+                elif ty in ("u16",) and "endian" in a: w = 16
+                elif enum_bits(ty) is not None: w = enum_bits(ty)
+                elif struct_fields(ty) is not None:
+                    sub = struct_fields(ty)
+                    for (n2, o2, w2) in sub: out.append((fname + "." + n2, off + o2, w2))
+                    w = memo.get(ty + "#width"); 
+                    off += w + (attr(a, "pad_bits_after") or 0) + 8 * (attr(a, "pad_bytes_after") or 0)
+                    continue
+            if w is None: return None
+            out.append((fname, off, w))
+            off += w + (attr(a, "pad_bits_after") or 0) + 8 * (attr(a, "pad_bytes_after") or 0)
+        memo[name] = out; memo[name + "#width"] = off
+        return out
+    res = {}
+    for it in items:
+        if it["kind"] == "struct":
+            f = struct_fields(it["name"])
+            if f is not None: res[it["name"]] = (f, memo[it["name"] + "#width"])
+    return res
+
 def fn_bodies():
     """normalised text of every function of the tracker crate and of the two client programs, keyed `<file>::<impl>::<fn>`;
     the tracker / client models were written against these bodies, an edit to one of them is a broken tie of the properties
@@ -359,6 +420,26 @@ end Adsb.Gen
                "theorem Adsb.Gen.source_outside_translated_fragment : False := by decide\n" % str(e).replace("-/", "- /"))
     pf = os.path.join(OUT, "Fns.lean")
     if not os.path.exists(pf) or open(pf).read() != fns: open(pf, "w").write(fns)
+    # bit offsets of the plain deku structs (Gen/Layout.lean), with the widths of the custom readers taken from the translated functions
+    rb = {}
+    for key, pat in (("Altitude.alt", r"def ac12SrcBits : Nat := (\d+)"), ("AC13Field.0", r"def ac13SrcBits : Nat := (\d+)"), ("IdentityCode.0", r"def identitySrcBits : Nat := (\d+)")):
+        m = re.search(pat, fns)
+        if m: rb[key] = int(m.group(1))
+    m = re.search(r"for _ in 0\.\.=?(\d+) \{[^}]*BitSize\((\d+)\)", shapes.get("aircraft_identification_read", ""))
+    m2 = re.search(r"for _ in 0\.\.(=?)(\d+)", shapes.get("aircraft_identification_read", ""))
+    if m and m2: rb["Identification.cn"] = (int(m2.group(2)) + (1 if m2.group(1) else 0)) * int(m.group(2))
+    offs = layout_offsets(lay, rb)
+    ll = ["/-! GENERATED by /verif/tools/extract.py from the `#[deku(..)]` attributes of /repo on every run. Do not edit.",
+          "For every plain deku struct: `layout_<Name>` = [(bit offset from the start of the struct, width)] in field order, `width_<Name>` = total bits",
+          "consumed (pads included). Field names are in the doc comments; the theorems of `Theorems/C10b` compare positions. -/", "namespace Adsb.Gen", ""]
+    for name in sorted(offs):
+        f, w = offs[name]
+        ll.append("/-- %s -/" % ", ".join("%s@%d+%d" % x for x in f))
+        ll.append("def layout_%s : List (Nat × Nat) := [%s]" % (name, ", ".join("(%d, %d)" % (x[1], x[2]) for x in f)))
+        ll.append("def width_%s : Nat := %d" % (name, w)); ll.append("")
+    ll += ["end Adsb.Gen", ""]
+    pl = os.path.join(OUT, "Layout.lean"); txt = "\n".join(ll)
+    if not os.path.exists(pl) or open(pl).read() != txt: open(pl, "w").write(txt)
     open(os.path.join(OUT, "panic_sites_apps.txt"), "w").write(panic_sites(APP_FILES))
     print(json.dumps({"tables_sha": hashlib.sha256(lean.encode()).hexdigest()[:16],
                       "layout_sha": hashlib.sha256(lay.encode()).hexdigest()[:16],
